@@ -44,6 +44,7 @@ pub(crate) struct World {
 /// afterwards with `set_limits` — a symbolic scalar inside a struct that is moved (memcpy) makes every later
 /// read of that struct a symbolic byte-array read and multiplies the formula size by ~15.
 pub(crate) fn vk_world(qcap: usize, lfu: TinyLFU) -> World {
+    unsafe { vs::MONITOR = true; }
     let stats = stk::vk_fresh();
     let config = cfk::vk_config(1, qcap, 1, 2);
     let store = sk::vk_store(stats.clone());
@@ -226,6 +227,7 @@ fn read_variant_agrees(variant: u8) {
     kani::cover!(q < POOL && keys[q].e.present && keys[q].e.soft_deleted, "soft-deleted key read");
     kani::cover!(q < POOL && keys[q].e.present && !keys[q].e.soft_deleted && keys[q].e.expiry.is_some() && expect.is_none(), "expired, unswept key read");
     kani::cover!(q == POOL, "never-written key read");
+    vs::edge_covers();
     core::mem::forget(w);
 }
 
@@ -262,6 +264,7 @@ fn multi_key_reads(variant: u8) {
     assert!(world_matches(&w, &keys), "C03: reads change nothing");
     kani::cover!(e1.is_some() && e2.is_none() && q1 != q2, "one hit and one miss");
     kani::cover!(q1 == q2 && e1.is_some(), "same key requested twice");
+    vs::edge_covers();
     core::mem::forget(w);
 }
 
@@ -330,6 +333,7 @@ fn c07_put_client_step_for(q: usize) {
     kani::cover!(readable && variant == 3, "existing key, weight+ttl variant");
     kani::cover!(!present && variant == 2, "absent key, ttl variant");
     kani::cover!(present && keys[q].e.soft_deleted, "soft-deleted, delete not yet applied");
+    vs::edge_covers();
     core::mem::forget(w);
 }
 
@@ -378,6 +382,7 @@ fn c04_delete_hides_then_releases_for(q: usize) {
     kani::cover!(held && keys[q].e.expiry.is_some(), "delete of a key with TTL");
     kani::cover!(held && keys[q].e.soft_deleted, "second delete while the first is still pending");
     kani::cover!(!held, "delete of a key that is not held (absent pool key / never written)");
+    vs::edge_covers();
     core::mem::forget(w);
 }
 
@@ -471,6 +476,7 @@ fn c08_put_or_update_step_for(q: usize) {
     }
     kani::cover!(!present && ttl.is_some() && weight.is_none(), "absent key, TTL put with computed weight");
     kani::cover!(present && !readable && keys[q].e.soft_deleted, "upsert of a soft-deleted key");
+    vs::edge_covers();
     core::mem::forget(w);
 }
 
@@ -555,6 +561,7 @@ fn c05_worker_put_step_for(q: usize) {
     kani::cover!(!present && accepted && evicted >= 1, "accepted after evicting");
     kani::cover!(!present && !accepted && evicted >= 1, "victims evicted, still rejected");
     kani::cover!(!present && accepted && with_ttl, "TTL put accepted");
+    vs::edge_covers();
     core::mem::forget(w);
 }
 
@@ -597,6 +604,7 @@ fn c11_unawaited_burst_in_order() {
     assert!(w.stats.keys_added() == 2 && w.stats.keys_deleted() == 1 && w.stats.keys_rejected() == 0, "C16: statistics equal those of the in-order reference run");
     kani::cover!(qcap == 1, "queue of one: sends met a full queue");
     kani::cover!(qcap == 2, "queue of two");
+    vs::edge_covers();
     core::mem::forget(w);
 }
 
@@ -647,6 +655,7 @@ fn c13_shutdown_gate_and_drain() {
     assert!(!apk::vk_keep_running(&c.admission_policy) && !exk::vk_keep_running(&c.ttl_ticker), "C13: consumer and sweeper are told to stop");
     kani::cover!(qcap == 1, "shutdown command met a full queue");
     kani::cover!(api == 12, "last API probed");
+    vs::edge_covers();
     core::mem::forget(w);
 }
 
@@ -669,6 +678,7 @@ fn c13_command_behind_shutdown_is_answered() {
     assert!(status_of(&behind) == Poll::Ready(CommandStatus::ShuttingDown) && status_of(&behind2) == Poll::Ready(CommandStatus::ShuttingDown), "C13: everything queued behind Shutdown is answered ShuttingDown");
     assert!(sk::vk_peek(&c.store, &102).is_none() && sk::vk_peek(&c.store, &101).is_some(), "C13: commands behind Shutdown are not executed");
     assert!(cek::vk_queue_len(&c.command_executor) == 0, "C13: the drain loop leaves nothing unanswered");
+    vs::edge_covers();
     core::mem::forget(w);
 }
 
@@ -720,6 +730,7 @@ fn sweep_end_to_end(with_stale: bool) {
         kani::cover!(keys[0].e.expiry == Some(now), "tick exactly at the expiry instant");
         kani::cover!(removed == 1 && keys[0].e.soft_deleted, "soft-deleted key swept");
     }
+    vs::edge_covers();
     core::mem::forget(w);
 }
 
